@@ -11,6 +11,16 @@ CLAIMS = {
   note="Trusted: CPython pathlib/os on tmpfs, the reference model (dsim/model). Not covered: case-insensitive file systems, Windows paths, I/O errors, threads.",
   technique="deterministic simulation: seeded enumeration-order / hash-seed / cwd / spelling schedules over a simulated workspace, reference-model oracle",
   ref="§3 C10"),
+ "C03": dict(
+  text="Seeded exploration in World W of the statement-stream state machine under end-of-input and formatting faults: each generated definition is rendered under 4-7 formatting vectors (final newline absent, CRLF, blank runs, trailing blanks, blanks-only 'empty' lines, orphan comment blocks, directive order, every way the text can end) and read through the real front end; oracles: mirror against the abstract definition (order, names, normalized types, exact values, attached comments, flags, request/response), identical canonical form across all vectors, and round trip of the returned model through canonical DSDL.",
+  note="Comment attachment is asserted only for the two unambiguous placements; trailing blanks are not appended to comment lines (they are comment content).",
+  technique="deterministic simulation: seeded storage-formatting / truncated-tail faults on the statement stream, reference-model + metamorphic oracles",
+  ref="§3 C03"),
+ "C17": dict(
+  text="Seeded exploration in World W: one located event per run (a faulty statement of 40 kinds or 1-3 @print directives with unique payloads) is planted at a seeded line of a seeded definition (target or dependency at any depth) and the workspace is read in seeded orders so that the definition is reached directly or through referrers; the error's path and line and every delivered (path, line, text) must be the statement's own; deliveries are counted per evaluation of the file.",
+  note="Finalisation-time errors (no single statement) assert the path, and a reported line must lie in that file. Known finding F5 (print path of dependencies) is listed in known_findings.json.",
+  technique="deterministic simulation: seeded reach-order and formatting schedules with a line-map reference model",
+  ref="§3 C17"),
  "C19": dict(
   text="Seeded exploration in World W: one logical read is executed three times while the simulator rewrites, adds and renames files that the abstract namespace model proves to lie outside the dependency closure (garbage, every rule violation of the catalogue, failing @assert, @print, kind / extent / port-ID conflicts, odd directory names; malformed file names in a sub-mode); canonical results or the raised error (class, path, line) must be identical, and the print handler must never see an out-of-closure directive. Sampling, replayable.",
   note="Trusted: closure computed by the reference model; the open() monitor is a probe only. Not covered: I/O errors, non-UTF-8 bytes.",
